@@ -35,7 +35,12 @@ def check_line(case, ctx):
         kwargs["spacing"] = spacing
     else:
         kwargs["size"] = size
+    first = vd.line_coordinates(start, stop, **kwargs)
+    keep = np.array(first, copy=True)
+    if isinstance(first, np.ndarray) and first.flags.writeable:
+        first += 12345.678  # what a caller does to the array it got must not leak into later calls
     values = vd.line_coordinates(start, stop, **kwargs)
+    ctx.check(np.array_equal(values, keep), "a second line_coordinates call with the same arguments returns different nodes after the first result was modified in place")
     models = line_models(start, stop, size=size, spacing=spacing, adjust=adjust, pixel=pixel)
     k, why = match_line(values, models, start, stop)
     if k is None:
@@ -152,7 +157,14 @@ def check_grid(case, ctx):
         size_n = size_e = None
     if case["extra"] is not None:
         kwargs["extra_coords"] = case["extra"]
+    first = vd.grid_coordinates(region, **kwargs)
+    keep = [np.array(c, copy=True) for c in first]
+    for c in first:
+        if isinstance(c, np.ndarray) and c.flags.writeable:
+            c *= -3.5
     coords = vd.grid_coordinates(region, **kwargs)
+    ctx.check(len(coords) == len(keep) and all(np.array_equal(a, b) for a, b in zip(coords, keep)),
+              "a second grid_coordinates call with the same arguments returns different coordinates after the first result was modified in place")
     ctx.check(isinstance(coords, tuple), "grid_coordinates must return a tuple")
     n_extra = 0 if case["extra"] is None else (len(case["extra"]) if isinstance(case["extra"], list) else 1)
     ctx.check(len(coords) == 2 + n_extra, "expected %d arrays, got %d", 2 + n_extra, len(coords))
